@@ -110,10 +110,11 @@ impl Scen {
             };
             let mint = w.add_mint(kind, dec);
             // a third of the fee-bearing mints have a fee change scheduled (to zero, or to another rate) that is not yet in
-            // force: the old fee keeps being charged
+            // force (the old fee keeps being charged) or that enters into force in the current epoch
             if let TokenKind::T22Fee { max_fee, .. } = kind {
                 if rng.chance(1, 3) {
-                    w.schedule_fee_change(&mint, *rng.pick(&[0u16, 0, 7, 2500]), max_fee, 2 + rng.below(3));
+                    // (activation epoch 0 = the world's clock epoch: the scheduled fee is in force from exactly now on)
+                    w.schedule_fee_change(&mint, *rng.pick(&[0u16, 0, 7, 2500]), max_fee, *rng.pick(&[0u64, 2, 3, 4]));
                 }
             }
             let price = *rng.pick(&[1i128, 10, 100, 2]) * ONE + rng.below(ONE as u64) as i128;
